@@ -374,4 +374,34 @@ PROPERTIES = {
             "thorough": {"fault_placements_executed": 4000000, "double_fault_placements": 600000, "faults_in_joined_task": 120000, "models": 15000},
         },
     },
+    "C20": {
+        "level": "exploration",
+        "crash_is_violation": True,
+        "rule": ("generated simulations: 1..6 modules (top-level modules form a gate ring, possibly a self loop; others are children), ring channels none / latency "
+                 "only / slow (messages pile up in the channel queue) / fast, per module: self messages, a start burst on the ring, tasks (sleeper loop, receiver "
+                 "on a never-fed channel, pending, finite, spawn_local sleeper), forwarding with a hop budget, messages held in module state, shutdown / "
+                 "shutdown-and-restart / panic at the k-th message, messages sent from at_sim_end, processing element, channel probe; identity tokens in all of "
+                 "these. Stop points: builder dropped, runtime dropped before run, stepped n events and abandoned, stepped and finished, event limit (EVERY "
+                 "prefix 0..24 for a share of the small models), time limit, completion, error exit. Oracle: after dropping whatever was returned every token "
+                 "was dropped exactly once (none alive, none twice), the statics are clean, and a fixed follow-up simulation reproduces the trace it has in a "
+                 "fresh process and is itself leak free. Non-trivial = case with >= 5 tokens that checked clean; distinct = hash of the case."),
+        "exhaustive_part": "every event-count limit 0..24 plus completion for one in eight small models",
+        "assumptions": ["tokens observe user-visible values; internal allocations without user values (timer slot / queue cycle) are out of the statement",
+                        "Miri runs with leak checking off (verdict about UB only) and without an aliasing model"],
+        "stages": [
+            native("drops", "desmon", "c20", tiers=QT, timeout={"quick": 900, "thorough": 5400}),
+            {"name": "asan", "crate": "desmon", "cmd": "c20", "mode": "asan", "tiers": T, "args": {"thorough": ["--budget", "1500"]},
+             "timeout": {"thorough": 3600}, "counter_prefix": "asan_"},
+            {"name": "miri", "crate": "desmon", "cmd": "c20", "mode": "miri", "tiers": T, "shards": {"thorough": 16},
+             "args": {"thorough": ["--budget", "3", "small=1"]}, "timeout": {"thorough": 5400}, "counter_prefix": "miri_"},
+        ],
+        "floor": {
+            "quick": {"tokens_created": 500000, "stops_event_limit": 20000, "stops_time_limit": 1000, "stops_completed": 2000, "stops_error_exit": 2000,
+                      "stops_builder_dropped": 500, "stops_runtime_dropped_before_run": 500, "stops_stepped_and_abandoned": 500,
+                      "remaining_events_returned": 100000, "models_with_channel_backlog": 5000, "models_with_shutdown": 8000,
+                      "models_sending_at_teardown": 8000, "models_with_every_limit_prefix": 800},
+            "thorough": {"tokens_created": 10000000, "stops_event_limit": 400000, "remaining_events_returned": 2000000, "models_with_channel_backlog": 100000,
+                         "asan_tokens_created": 100000, "miri_tokens_created": 100},
+        },
+    },
 }
